@@ -475,6 +475,74 @@ def corpus():
     return res
 
 
+def enumerate_shapes(max_states, vary_headed=False):
+    """Exhaustive mode: every ordered tree with at most `max_states` nodes whose inner nodes are
+    labelled composite or orthogonal (valid roots only).  Strategies rotate with the pre-order
+    rank of the region; `vary_headed` additionally enumerates headed/headless for every region,
+    otherwise headedness alternates with the rank."""
+    from functools import lru_cache
+
+    @lru_cache(maxsize=None)
+    def forests(n):
+        """all sequences of trees with n nodes in total (as tuples of nested tuples)"""
+        if n == 0:
+            return ((),)
+        out = []
+        for first in range(1, n + 1):
+            for t in trees(first):
+                for rest in forests(n - first):
+                    out.append((t,) + rest)
+        return tuple(out)
+
+    @lru_cache(maxsize=None)
+    def trees(n):
+        """all trees with n nodes: ('L',) or (kind, children...)"""
+        if n == 1:
+            return (('L',),)
+        out = []
+        for f in forests(n - 1):
+            out.append(('C',) + f)
+            out.append(('O',) + f)
+        return tuple(out)
+
+    def variants(t):
+        """shapes for one labelled tree"""
+        regions = []
+
+        def count(u):
+            if u[0] != 'L':
+                regions.append(u)
+                for c in u[1:]:
+                    count(c)
+        count(t)
+        nreg = len(regions)
+        masks = range(1 << nreg) if vary_headed else [None]
+        for mask in masks:
+            rank = [0]
+
+            def build(u):
+                if u[0] == 'L':
+                    return Shape('L')
+                k = rank[0]
+                rank[0] += 1
+                headed = ((mask >> k) & 1) == 0 if mask is not None else (k % 3 != 1)
+                subs = [build(c) for c in u[1:]]
+                if u[0] == 'C':
+                    return Shape('C', headed, 0, STRATEGIES[k % len(STRATEGIES)], subs)
+                return Shape('O', headed, 0, None, subs)
+            yield build(t)
+
+    out = []
+    for n in range(2, max_states + 1):
+        for t in trees(n):
+            if t[0] == 'L':
+                continue
+            for s in variants(t):
+                if s.valid_root():
+                    out.append(s)
+    return out
+
+
 def generate(seed, count, max_states=32, max_depth=5, max_width=9, with_corpus=True):
     """Corpus first, then seeded random shapes (no duplicates) up to `count` in total."""
     rng = SplitMix(seed)
